@@ -91,6 +91,17 @@ def gen_history(rng, nalters=None):
         else:
             sch = rng.choice([None, "zz", "a", "b"])
             nm = "nosuch_%d" % rng.randrange(100)
-            stmts.append((k, None, "ALTER TABLE %s ADD UNIQUE (x);" % (((sch + ".") if sch else "") + nm), {}))
+            if rng.random() < 0.6:
+                # the NAME of a defined table under a schema (or without one) for which the script defines no table:
+                # an unqualified reference must not fall back to a same-named table of some schema, nor the other way round
+                cand = [s_ for s_ in [None, "a", "b", "c", "zz"] if (t["name"].lower(), s_) not in used]
+                if cand:
+                    sch, nm = rng.choice(cand), rng.choice(QUOTES)(t["name"])
+            target = ((rng.choice(QUOTES)(sch) + ".") if sch else "") + nm
+            c0 = bare(cols[0])
+            stmts.append((k, None, rng.choice(["ALTER TABLE %s ADD UNIQUE (%s);" % (target, c0),
+                                               "ALTER TABLE %s DROP COLUMN %s;" % (target, c0),
+                                               "ALTER TABLE %s ADD new_1 int;" % target,
+                                               "CREATE UNIQUE INDEX ix_m ON %s (%s);" % (target, c0)]), {}))
     text = "\n".join(G.render_table(t, None) for t in tables) + "\n" + "\n".join(s[2] for s in stmts) + "\n"
     return {"tables": tables, "stmts": stmts, "text": text}
